@@ -28,7 +28,13 @@ import (
 const (
 	hangWatchdog   = 150 * time.Second // >= 120 s (brief); only classifies hangs, never an oracle
 	samplerBudget  = 4096              // draws a sampler may consume before it is classified as not terminating
-	genFillerDraws = 64
+	genFillerDraws    = 20000 // fruitless draws (>= 2 s of waiting) before the deterministic stream takes over
+	genFillerDrawsMin = 64
+)
+
+var (
+	genFillerLimit int32 = genFillerDraws
+	genStarved     int32
 )
 
 func runInputs(r *core.Run) {
@@ -40,15 +46,23 @@ func runInputs(r *core.Run) {
 		wg.Add(1)
 		go func() { defer wg.Done(); gen1024(r) }()
 	}
-	genParams(r)
-	genEnumerate(r)
-	genReaderErrors(r)
-	validateEnumerate(r)
-	nTildeHelper(r)
-	samplersSmall(r)
-	samplersEdge(r)
-	samplersLarge(r)
+	phases := map[string]float64{}
+	phase := func(name string, f func(*core.Run)) {
+		t0 := time.Now()
+		f(r)
+		phases[name] = float64(int(time.Since(t0).Seconds()*10)) / 10
+	}
+	phase("gen-params", genParams)
+	phase("gen-enumerate", genEnumerate)
+	phase("gen-reader-errors", genReaderErrors)
+	phase("validate", validateEnumerate)
+	phase("ntilde-helper", nTildeHelper)
+	phase("samplers-qnr-squares", samplersQNRSquares)
+	phase("samplers-small", samplersSmall)
+	phase("samplers-edge", samplersEdge)
+	phase("samplers-large", samplersLarge)
 	wg.Wait()
+	r.Set("inputs_phase_wall_s", phases) // information only
 }
 
 // selfTestRef: the references must agree with each other before they judge anything.
@@ -104,14 +118,15 @@ type genReader struct {
 
 func (g *genReader) Read(p []byte) (int, error) {
 	g.mu.Lock()
-	defer g.mu.Unlock()
 	k := g.draws
 	g.draws++
 	if g.errAt >= 0 && k >= g.errAt {
+		g.mu.Unlock()
 		return 0, errScripted
 	}
 	if g.maxDraws > 0 && k >= g.maxDraws {
 		g.exceeded = true
+		g.mu.Unlock()
 		return 0, errScripted
 	}
 	switch {
@@ -123,16 +138,36 @@ func (g *genReader) Read(p []byte) (int, error) {
 		for i := range p {
 			p[i] = s[i%len(s)]
 		}
-	case k < len(g.script)+genFillerDraws && len(g.script) > 0:
+	case len(g.script) > 0 && k < len(g.script)+int(atomic.LoadInt32(&genFillerLimit)):
+		// The script has supplied everything the consumer needs; until the consumer has run and
+		// cancelled, hand out fruitless draws and give the consumer's goroutine the processor.
 		for i := range p {
 			p[i] = 0xff
 		}
+		f := k - len(g.script)
+		g.mu.Unlock()
+		if f < 16 {
+			runtime.Gosched()
+		} else {
+			time.Sleep(100 * time.Microsecond)
+		}
+		if f+1 == int(atomic.LoadInt32(&genFillerLimit)) {
+			// the generator did not finish with the scripted primes: from now on it gets the
+			// deterministic stream; do not wait that long again in later calls
+			if atomic.AddInt32(&genStarved, 1) >= 3 {
+				atomic.StoreInt32(&genFillerLimit, genFillerDrawsMin)
+			}
+		}
+		return len(p), nil
 	default:
 		if g.drbg == nil {
 			g.drbg = core.NewDRBG(g.label)
 		}
-		return g.drbg.Read(p)
+		n, err := g.drbg.Read(p)
+		g.mu.Unlock()
+		return n, err
 	}
+	g.mu.Unlock()
 	return len(p), nil
 }
 
@@ -305,9 +340,19 @@ func genEnumerate(r *core.Run) {
 		}
 		qBits := bits - 1
 		nb := (qBits + 7) / 8
-		// numPrimes = 1, draw at position 0: EVERY raw byte string of the width of one draw
-		for v := 0; v < 1<<(8*uint(nb)); v++ {
-			cases = append(cases, genCase{bits, 1, 0, beBytes(uint64(v), nb)})
+		// numPrimes = 1, draw at position 0: EVERY raw byte string of the width of one draw; quick,
+		// for two-byte draws: every value of the qBits bits the generator keeps (including the
+		// three it forces), the masked-away bits once all zero and once all one
+		if nb == 1 || r.Tier == "thorough" {
+			for v := 0; v < 1<<(8*uint(nb)); v++ {
+				cases = append(cases, genCase{bits, 1, 0, beBytes(uint64(v), nb)})
+			}
+		} else {
+			for _, fill := range []uint64{0, ^uint64(0) << uint(qBits)} {
+				for v := uint64(0); v < 1<<uint(qBits); v++ {
+					cases = append(cases, genCase{bits, 1, 0, beBytes(v|fill, nb)})
+				}
+			}
 		}
 		// numPrimes = 2 and 3, positions 0 and 1: every value of the bits that survive the generator's
 		// masking (bits above qBits are cleared, two top bits and the low bit are forced); the
@@ -329,7 +374,7 @@ func genEnumerate(r *core.Run) {
 		cases map[string]struct{}
 	}
 	a := &agg{cases: map[string]struct{}{}}
-	core.ParallelFor(len(cases), runtime.NumCPU(), func(i int) {
+	core.ParallelFor(len(cases), 4*runtime.NumCPU(), func(i int) { // latency-bound (goroutine hand-overs), not CPU-bound
 		c := cases[i]
 		k := known[c.bits]
 		var script [][]byte
@@ -352,7 +397,7 @@ func genEnumerate(r *core.Run) {
 		}
 		o := callGen(c.bits, c.np, 1, rd)
 		rec := map[string]interface{}{"bits": c.bits, "numPrimes": c.np, "concurrency": 1, "enumerated_draw_index": c.pos,
-			"enumerated_draw": fmt.Sprintf("%x", c.first), "script": hexList(script), "then": fmt.Sprintf("%d all-ones draws, then DRBG(%q)", genFillerDraws, rd.label)}
+			"enumerated_draw": fmt.Sprintf("%x", c.first), "script": hexList(script), "then": fmt.Sprintf("all-ones draws (up to %d), then DRBG(%q)", genFillerDraws, rd.label)}
 		key := fmt.Sprintf("gen/bits%d/np%d", c.bits, c.np)
 		if rd.widthBad {
 			atomic.AddInt32(&widthBad, 1)
@@ -904,8 +949,6 @@ func samplersSmall(r *core.Run) {
 func samplersForBound(r *core.Run, n uint64, agg *samplerAgg, progress *sync.Map) {
 	N := new(big.Int).SetUint64(n)
 	bits := N.BitLen()
-	local := map[string]int64{}
-	var calls, wb int64
 	progress.Store(n, "start")
 	defer progress.Delete(n)
 	sq := unitSquares(n)
@@ -921,125 +964,133 @@ func samplersForBound(r *core.Run, n uint64, agg *samplerAgg, progress *sync.Map
 		}
 	}
 	bc := boundClass(n)
-	note := func(name, class string, rd *scriptReader, fd []byte) {
-		local[fmt.Sprintf("%s|%d|%s", name, n, class)]++
-		calls++
-		if rd != nil && rd.widthBad {
-			wb++
-		}
+	type spec struct {
+		name, label, nilText string
+		call                 func(rd io.Reader) *big.Int
+		chk                  func(v *big.Int) (cls, what string)
+		classes              map[string]int64
 	}
-	rec := func(name string, fd []byte, v *big.Int, label string) map[string]interface{} {
-		m := map[string]interface{}{"function": name, "bound": n, "first_draw": fmt.Sprintf("%x", fd), "then": "DRBG(" + label + ")"}
+	var specs []*spec
+	// 1. GetRandomPositiveInt: [0, bound)
+	specs = append(specs, &spec{name: "GetRandomPositiveInt", label: fmt.Sprint("c19/s/pos/", n), nilText: "nil returned for a positive bound",
+		call: func(rd io.Reader) *big.Int { return common.GetRandomPositiveInt(rd, N) },
+		chk: func(v *big.Int) (string, string) {
+			if v.Sign() < 0 || v.Cmp(N) >= 0 {
+				return "out-of-range", "outside [0, bound)"
+			}
+			return "", ""
+		}})
+	if n >= 2 {
+		// 2. GetRandomPositiveRelativelyPrimeInt: [1, n), coprime to n (required for n >= 2 only, DESIGN 3a)
+		specs = append(specs, &spec{name: "GetRandomPositiveRelativelyPrimeInt", label: fmt.Sprint("c19/s/rp/", n), nilText: "nil returned for n >= 2",
+			call: func(rd io.Reader) *big.Int { return common.GetRandomPositiveRelativelyPrimeInt(rd, N) },
+			chk: func(v *big.Int) (string, string) {
+				if v.Sign() <= 0 || v.Cmp(N) >= 0 {
+					return "out-of-range", "outside [1, n)"
+				}
+				if gcd64(v.Uint64(), n) != 1 {
+					return "not-coprime", "not coprime to n"
+				}
+				return "", ""
+			}})
+		// 3. GetRandomGeneratorOfTheQuadraticResidue: a square, coprime to n
+		specs = append(specs, &spec{name: "GetRandomGeneratorOfTheQuadraticResidue", label: fmt.Sprint("c19/s/qr/", n), nilText: "nil returned for n >= 2",
+			call: func(rd io.Reader) *big.Int { return common.GetRandomGeneratorOfTheQuadraticResidue(rd, N) },
+			chk: func(v *big.Int) (string, string) {
+				if v.Sign() < 0 || v.Cmp(N) >= 0 {
+					return "out-of-range", "outside [0, n)"
+				}
+				if gcd64(v.Uint64(), n) != 1 || !sq[v.Uint64()] {
+					return "not-a-unit-square", "not the square of a unit modulo n"
+				}
+				return "", ""
+			}})
+	}
+	// 4. GetRandomQuadraticNonResidue: Jacobi symbol -1 (odd n >= 3; n = 1 has no non-residue at all;
+	// odd perfect squares are handled by samplersQNRSquares)
+	if n%2 == 1 && n >= 3 && hasMinus {
+		specs = append(specs, &spec{name: "GetRandomQuadraticNonResidue", label: fmt.Sprint("c19/s/qnr/", n), nilText: "nil returned for odd n >= 3",
+			call: func(rd io.Reader) *big.Int { return common.GetRandomQuadraticNonResidue(rd, N) },
+			chk: func(v *big.Int) (string, string) {
+				if v.Sign() < 0 || v.Cmp(N) >= 0 {
+					return "out-of-range", "outside [0, n)"
+				}
+				if j := jac[v.Uint64()]; j != -1 {
+					return "jacobi-not-minus-one", fmt.Sprintf("Jacobi symbol %d", j)
+				}
+				return "", ""
+			}})
+	}
+	for _, sp := range specs {
+		sp.classes = map[string]int64{}
+	}
+	rec := func(sp *spec, fd []byte, v *big.Int) map[string]interface{} {
+		m := map[string]interface{}{"function": sp.name, "bound": n, "first_draw": fmt.Sprintf("%x", fd), "then": "DRBG(" + sp.label + ")"}
 		if v != nil {
 			m["returned"] = v.String()
 		}
 		return m
 	}
+	var calls, wb int64
 	sampled := false
 	firstDraws(bits, func(fd []byte) {
-		// 1. GetRandomPositiveInt: [0, bound)
-		{
-			name, label := "GetRandomPositiveInt", fmt.Sprint("c19/s/pos/", n)
-			v, class, pan, rd := callSampler(fd, label, func(rd io.Reader) *big.Int { return common.GetRandomPositiveInt(rd, N) })
-			note(name, class, rd, fd)
+		for _, sp := range specs {
+			v, class, pan, rd := callSampler(fd, sp.label, sp.call)
+			sp.classes[class]++
+			calls++
+			if rd.widthBad {
+				wb++
+			}
+			key := "sampler/" + sp.name + "/" + bc
 			switch class {
 			case "panic":
-				m := rec(name, fd, nil, label)
+				m := rec(sp, fd, nil)
 				m["panic"] = pan
-				r.Violate("sampler/"+name+"/"+bc+":panic", "panic", m)
+				r.Violate(key+":panic", "panic", m)
 			case "hang":
-				r.Violate("sampler/"+name+"/"+bc+":hang", fmt.Sprintf("no value after %d draws", samplerBudget), rec(name, fd, nil, label))
+				r.Violate(key+":hang", fmt.Sprintf("no value after %d draws", samplerBudget), rec(sp, fd, nil))
 			case "nil":
-				r.Violate("sampler/"+name+"/"+bc+"/nil", "nil returned for a positive bound", rec(name, fd, nil, label))
+				r.Violate(key+"/nil", sp.nilText, rec(sp, fd, nil))
 			default:
-				if v.Sign() < 0 || v.Cmp(N) >= 0 {
-					r.Violate("sampler/"+name+"/"+bc+"/out-of-range", fmt.Sprintf("returned %v for bound %d", v, n), rec(name, fd, v, label))
+				if cls, what := sp.chk(v); cls != "" {
+					r.Violate(key+"/"+cls, fmt.Sprintf("%s returned %v for bound %d: %s", sp.name, v, n, what), rec(sp, fd, v))
 				}
-			}
-		}
-		if n >= 2 {
-			// 2. GetRandomPositiveRelativelyPrimeInt: [1, n), coprime to n
-			{
-				name, label := "GetRandomPositiveRelativelyPrimeInt", fmt.Sprint("c19/s/rp/", n)
-				v, class, pan, rd := callSampler(fd, label, func(rd io.Reader) *big.Int { return common.GetRandomPositiveRelativelyPrimeInt(rd, N) })
-				note(name, class, rd, fd)
-				switch class {
-				case "panic":
-					m := rec(name, fd, nil, label)
-					m["panic"] = pan
-					r.Violate("sampler/"+name+"/"+bc+":panic", "panic", m)
-				case "hang":
-					r.Violate("sampler/"+name+"/"+bc+":hang", fmt.Sprintf("no value after %d draws", samplerBudget), rec(name, fd, nil, label))
-				case "nil":
-					r.Violate("sampler/"+name+"/"+bc+"/nil", "nil returned for n >= 2", rec(name, fd, nil, label))
-				default:
-					if v.Sign() <= 0 || v.Cmp(N) >= 0 {
-						r.Violate("sampler/"+name+"/"+bc+"/out-of-range", fmt.Sprintf("returned %v for n=%d", v, n), rec(name, fd, v, label))
-					} else if gcd64(v.Uint64(), n) != 1 {
-						r.Violate("sampler/"+name+"/"+bc+"/not-coprime", fmt.Sprintf("returned %v for n=%d", v, n), rec(name, fd, v, label))
-					}
-				}
-				if !sampled && class == "redraw" && n > 1000 {
+				if !sampled && class == "redraw" && n > 1000 && sp.name == "GetRandomPositiveRelativelyPrimeInt" {
 					sampled = true
-					r.Sample(6, rec(name, fd, v, label))
-				}
-			}
-			// 3. GetRandomGeneratorOfTheQuadraticResidue: a square, coprime to n
-			{
-				name, label := "GetRandomGeneratorOfTheQuadraticResidue", fmt.Sprint("c19/s/qr/", n)
-				v, class, pan, rd := callSampler(fd, label, func(rd io.Reader) *big.Int { return common.GetRandomGeneratorOfTheQuadraticResidue(rd, N) })
-				note(name, class, rd, fd)
-				switch class {
-				case "panic":
-					m := rec(name, fd, nil, label)
-					m["panic"] = pan
-					r.Violate("sampler/"+name+"/"+bc+":panic", "panic", m)
-				case "hang":
-					r.Violate("sampler/"+name+"/"+bc+":hang", fmt.Sprintf("no value after %d draws", samplerBudget), rec(name, fd, nil, label))
-				case "nil":
-					r.Violate("sampler/"+name+"/"+bc+"/nil", "nil returned for n >= 2", rec(name, fd, nil, label))
-				default:
-					if v.Sign() < 0 || v.Cmp(N) >= 0 {
-						r.Violate("sampler/"+name+"/"+bc+"/out-of-range", fmt.Sprintf("returned %v for n=%d", v, n), rec(name, fd, v, label))
-					} else if gcd64(v.Uint64(), n) != 1 || !sq[v.Uint64()] {
-						r.Violate("sampler/"+name+"/"+bc+"/not-a-unit-square", fmt.Sprintf("returned %v for n=%d", v, n), rec(name, fd, v, label))
-					}
-				}
-			}
-		}
-		// 4. GetRandomQuadraticNonResidue: Jacobi symbol -1 (odd n; n = 1 has no non-residue at all)
-		if n%2 == 1 && n >= 3 && hasMinus {
-			name, label := "GetRandomQuadraticNonResidue", fmt.Sprint("c19/s/qnr/", n)
-			v, class, pan, rd := callSampler(fd, label, func(rd io.Reader) *big.Int { return common.GetRandomQuadraticNonResidue(rd, N) })
-			note(name, class, rd, fd)
-			switch class {
-			case "panic":
-				m := rec(name, fd, nil, label)
-				m["panic"] = pan
-				r.Violate("sampler/"+name+"/"+bc+":panic", "panic", m)
-			case "hang":
-				r.Violate("sampler/"+name+"/"+bc+":hang", fmt.Sprintf("no value after %d draws", samplerBudget), rec(name, fd, nil, label))
-			case "nil":
-				r.Violate("sampler/"+name+"/"+bc+"/nil", "nil returned for odd n >= 3", rec(name, fd, nil, label))
-			default:
-				if v.Sign() < 0 || v.Cmp(N) >= 0 {
-					r.Violate("sampler/"+name+"/"+bc+"/out-of-range", fmt.Sprintf("returned %v for n=%d", v, n), rec(name, fd, v, label))
-				} else if jac[v.Uint64()] != -1 {
-					r.Violate("sampler/"+name+"/"+bc+"/jacobi-not-minus-one", fmt.Sprintf("returned %v for n=%d: Jacobi symbol %d", v, n, jac[v.Uint64()]), rec(name, fd, v, label))
+					r.Sample(6, rec(sp, fd, v))
 				}
 			}
 		}
 	})
-	// Odd perfect squares > 1: quadratic non-residues exist (e.g. 2 mod 9) and the doc comment admits
-	// every odd n, but no element has Jacobi symbol -1, which is what the sampler waits for. The
-	// space of first draws is not enumerated (each call runs into the draw budget): 4 representatives.
-	if n%2 == 1 && n >= 3 && !hasMinus {
-		w := (bits + 7) / 8
+	local := map[string]int64{}
+	for _, sp := range specs {
+		for c, k := range sp.classes {
+			local[fmt.Sprintf("%s|%d|%s", sp.name, n, c)] = k
+		}
+	}
+	agg.add(local, calls, wb)
+}
+
+// samplersQNRSquares: odd perfect squares > 1. Quadratic non-residues exist (e.g. 2 mod 9) and the
+// doc comment admits every odd n, but no element has Jacobi symbol -1, which is what the sampler
+// waits for. The space of first draws is not enumerated here (each call runs into the draw budget):
+// 4 representative first draws per bound, bounds ascending so that the recorded case is the smallest.
+func samplersQNRSquares(r *core.Run) {
+	for _, n := range smallBounds() {
+		if n%2 == 0 || n < 3 || !isPerfectSquare64(n) {
+			continue
+		}
+		N := new(big.Int).SetUint64(n)
+		sq := unitSquares(n)
+		bc := boundClass(n)
+		w := (N.BitLen() + 7) / 8
 		for _, fd := range [][]byte{beBytes(0, w), beBytes(2, w), beBytes(n-1, w), beBytes(^uint64(0), w)} {
 			name, label := "GetRandomQuadraticNonResidue", fmt.Sprint("c19/s/qnr/", n)
-			v, class, pan, rd := callSampler(fd, label, func(rd io.Reader) *big.Int { return common.GetRandomQuadraticNonResidue(rd, N) })
-			note(name, class, rd, fd)
-			m := rec(name, fd, v, label)
+			v, class, pan, _ := callSampler(fd, label, func(rd io.Reader) *big.Int { return common.GetRandomQuadraticNonResidue(rd, N) })
+			r.Count("sampler_calls", 1)
+			r.Count("sampler_qnr_square_calls", 1)
+			r.Distinct("cases", fmt.Sprintf("sampler|%s|%d|%s", name, n, class))
+			m := map[string]interface{}{"function": name, "bound": n, "first_draw": fmt.Sprintf("%x", fd), "then": "DRBG(" + label + ")"}
 			switch class {
 			case "hang":
 				m["note"] = fmt.Sprintf("n = %d is an odd perfect square: non-residues exist, none has Jacobi symbol -1; %d draws consumed without a result", n, samplerBudget)
@@ -1048,15 +1099,15 @@ func samplersForBound(r *core.Run, n uint64, agg *samplerAgg, progress *sync.Map
 				m["panic"] = pan
 				r.Violate("sampler/"+name+"/"+bc+":panic", "panic", m)
 			case "nil":
-				// refusing is inside the contract: nothing to return
+				// refusing is inside the contract: nothing with Jacobi symbol -1 to return
 			default:
+				m["returned"] = v.String()
 				if v.Sign() < 0 || v.Cmp(N) >= 0 || gcd64(v.Uint64(), n) == 1 && sq[v.Uint64()] {
 					r.Violate("sampler/"+name+"/"+bc+"/residue-returned", fmt.Sprintf("returned the quadratic residue (or out-of-range value) %v for n=%d", v, n), m)
 				}
 			}
 		}
 	}
-	agg.add(local, calls, wb)
 }
 
 // samplersEdge: bounds <= 0 / nil, MustGetRandomInt, GetRandomPrimeInt, IsNumberInMultiplicativeGroup.
@@ -1091,28 +1142,30 @@ func samplersEdge(r *core.Run) {
 	}
 	// MustGetRandomInt: 0 <= v <= 2^bits - 1; panics for bits <= 0 (both documented)
 	maxBits := 17
-	for bits := 1; bits <= maxBits; bits++ {
-		bits := bits
+	core.ParallelFor(maxBits, runtime.NumCPU(), func(i int) {
+		bits := maxBits - i
 		max := new(big.Int).Sub(new(big.Int).Lsh(big.NewInt(1), uint(bits)), big.NewInt(1))
+		label := fmt.Sprint("c19/s/must/", bits)
+		call := func(rd io.Reader) *big.Int { return common.MustGetRandomInt(rd, bits) }
 		var calls int64
 		classes := map[string]bool{}
 		firstDraws(bits, func(fd []byte) {
-			v, class, pan, _ := callSampler(fd, fmt.Sprint("c19/s/must/", bits), func(rd io.Reader) *big.Int { return common.MustGetRandomInt(rd, bits) })
+			v, class, pan, _ := callSampler(fd, label, call)
 			calls++
 			classes[class] = true
-			rec := map[string]interface{}{"function": "MustGetRandomInt", "bits": bits, "first_draw": fmt.Sprintf("%x", fd)}
+			rec := func() map[string]interface{} {
+				return map[string]interface{}{"function": "MustGetRandomInt", "bits": bits, "first_draw": fmt.Sprintf("%x", fd), "panic": pan, "returned": fmt.Sprint(v)}
+			}
 			switch class {
 			case "panic":
-				rec["panic"] = pan
-				r.Violate("sampler/MustGetRandomInt/positive-bits:panic", "panic although the reader works and bits > 0", rec)
+				r.Violate("sampler/MustGetRandomInt/positive-bits:panic", "panic although the reader works and bits > 0", rec())
 			case "hang":
-				r.Violate("sampler/MustGetRandomInt/positive-bits:hang", "does not terminate", rec)
+				r.Violate("sampler/MustGetRandomInt/positive-bits:hang", "does not terminate", rec())
 			case "nil":
-				r.Violate("sampler/MustGetRandomInt/positive-bits/nil", "nil", rec)
+				r.Violate("sampler/MustGetRandomInt/positive-bits/nil", "nil", rec())
 			default:
 				if v.Sign() < 0 || v.Cmp(max) > 0 {
-					rec["returned"] = v.String()
-					r.Violate("sampler/MustGetRandomInt/positive-bits/out-of-range", "value outside [0, 2^bits-1]", rec)
+					r.Violate("sampler/MustGetRandomInt/positive-bits/out-of-range", "value outside [0, 2^bits-1]", rec())
 				}
 			}
 		})
@@ -1120,7 +1173,7 @@ func samplersEdge(r *core.Run) {
 		for c := range classes {
 			r.Distinct("cases", fmt.Sprint("sampler|MustGetRandomInt|", bits, "|", c))
 		}
-	}
+	})
 	for _, bits := range []int{0, -1, -64} {
 		_, class, _, _ := callSampler([]byte{1}, "c19/s/must/neg", func(rd io.Reader) *big.Int { return common.MustGetRandomInt(rd, bits) })
 		r.Count("sampler_calls", 1)
